@@ -1,3 +1,5 @@
 SPECIFICATION Spec
+CONSTANTS
+  StrictGrowth = TRUE
 POSTCONDITION TraceAccepted
 CHECK_DEADLOCK FALSE
